@@ -209,14 +209,20 @@ def laws():
         res.append(sp.Integer(0 if np_.system is B else 1))
         return Case(res, assume=domain(s[0], co), axioms=axioms.kit(angles(s[0], co), polar(s[0], co)))
 
-    @law("convert_vector/keeps-cartesian-components", pairs, ["coordinate_systems.convert.convert_vector",
-                                                              "coordinate_systems.convert.convert_point"], backend="z3")
+    # third shape element: how the SAME vector is written -- expanded (k0*e0 + k1*e1 + k2*e2) or with a common factor kept outside a
+    # bracket (k0*(e0 + e1) + k2*e2, which SymPy keeps as Mul(k0, Add(e0, e1))): the conversion must not depend on the spelling
+    @law("convert_vector/keeps-cartesian-components", [p_ + (f,) for p_ in pairs for f in ("expanded", "factored")],
+         ["coordinate_systems.convert.convert_vector", "coordinate_systems.convert.convert_point"], backend="z3")
     def _(s, g):
         A, B = cls[s[0]](), cls[s[1]]()
         co, p = gen_point(s[0], g, A)
         k = [g.sym("k0"), g.sym("k1"), g.sym("k2")]
         ea = A.base_vectors(p)
-        v = sum(ki * ei for ki, ei in zip(k, ea))
+        if s[2] == "factored":
+            v = sp.Mul(k[0], sp.Add(ea[0], ea[1]), evaluate=False) + k[2] * ea[2]
+            k = [k[0], k[0], k[2]]
+        else:
+            v = sum(ki * ei for ki, ei in zip(k, ea))
         nv = CSM.convert_vector(v, p, B)
         np_ = CSM.convert_point(p, B)
         eb = B.base_vectors(np_)
